@@ -981,4 +981,123 @@ Theorem c1p_decide_rows_perm rows rows' nc : Permutation rows rows' -> c1p_decid
 Proof. intros H. unfold c1p_decide. apply existsb_ext'. intros p. now apply forallb_perm'. Qed.
 Theorem c1p_check_rows_perm rows rows' nc perm : Permutation rows rows' -> c1p_check rows nc perm = c1p_check rows' nc perm.
 Proof. intros H. unfold c1p_check. f_equal. now apply forallb_perm'. Qed.
+
+(* ballots in another order, voter-side domains: a ballot order for one storage order is translated into one for
+   the other through the index permutation (Proofs/C1P.v: Permutation_index) *)
+Lemma transport_border (ballots : list (list N)) p border' :
+  Permutation (seq 0 (length ballots)) p -> perm_of_seq (length ballots) border' = true ->
+  perm_of_seq (length ballots) (map (fun i => nth i p 0) border') = true /\
+  length (map (fun i => nth i ballots []) p) = length ballots /\
+  forall i, In i border' ->
+    ballot_at (map (fun i => nth i ballots []) p) i = ballot_at ballots (nth i p 0).
+Proof.
+  intros Hp Hb. apply Proofs.C1P.perm_of_seq_correct in Hb.
+  assert (Hlen : length p = length ballots) by (rewrite <- (Permutation_length Hp); apply seq_length).
+  split; [|split].
+  - apply Proofs.C1P.perm_of_seq_correct. transitivity p; [exact Hp|].
+    rewrite <- (Proofs.C1P.map_nth_seq p 0) at 1. rewrite Hlen. now apply Permutation_map.
+  - now rewrite map_length.
+  - intros i Hi. apply (Permutation_in _ (Permutation_sym Hb)) in Hi. apply in_seq in Hi.
+    unfold ballot_at. rewrite (nth_indep _ [] (nth 0 ballots [])) by (rewrite map_length; lia).
+    apply (map_nth (fun i => nth i ballots [])).
+Qed.
+
+Section VoterSide.
+Variables (ballots ballots' : list (list N)).
+Hypothesis HP : Permutation ballots ballots'.
+Variable Q : (nat -> list N) -> list nat -> bool.
+Hypothesis Q_nat : forall B B' border h, (forall i, In i border -> B' i = B (h i)) -> Q B' border = Q B (map h border).
+
+Lemma voter_side_transport :
+  existsb (fun border => perm_of_seq (length ballots') border && Q (ballot_at ballots') border)
+          (perms (seq 0 (length ballots'))) = true ->
+  existsb (fun border => perm_of_seq (length ballots) border && Q (ballot_at ballots) border)
+          (perms (seq 0 (length ballots))) = true.
+Proof.
+  destruct (Proofs.C1P.Permutation_index [] ballots ballots' HP) as (p & Hp & E).
+  rewrite !existsb_exists. intros (border' & _ & H). apply andb_true_iff in H. destruct H as [Hb Hw].
+  assert (Hl : length ballots' = length ballots) by (symmetry; now apply Permutation_length).
+  rewrite Hl in Hb. destruct (transport_border ballots p border' Hp Hb) as (H1 & H2 & H3). rewrite <- E in H3.
+  exists (map (fun i => nth i p 0) border'). split.
+  - apply perms_iff. now apply Proofs.C1P.perm_of_seq_correct.
+  - rewrite H1. simpl. rewrite <- Hw. symmetry. apply Q_nat. exact H3.
+Qed.
+End VoterSide.
+
+Definition vi_Q (alts : list N) (B : nat -> list N) (border : list nat) : bool :=
+  forallb (fun a => contig01 (map (fun i => mem a (B i)) border)) alts.
+Definition vei_Q (alts : list N) (B : nat -> list N) (border : list nat) : bool :=
+  forallb (fun a => extremal01 (map (fun i => mem a (B i)) border)) alts.
+Definition wsc_Q (alts : list N) (B : nat -> list N) (border : list nat) : bool :=
+  forallb (fun a => forallb (fun b => contig01 (map (fun i => mem a (B i) && negb (mem b (B i))) border)) alts) alts.
+
+Lemma vi_Q_nat alts B B' border h : (forall i, In i border -> B' i = B (h i)) -> vi_Q alts B' border = vi_Q alts B (map h border).
+Proof.
+  intros H. unfold vi_Q. apply forallb_ext'. intros a. f_equal. rewrite map_map. apply map_ext_in.
+  intros i Hi. now rewrite H.
+Qed.
+Lemma vei_Q_nat alts B B' border h : (forall i, In i border -> B' i = B (h i)) -> vei_Q alts B' border = vei_Q alts B (map h border).
+Proof.
+  intros H. unfold vei_Q. apply forallb_ext'. intros a. f_equal. rewrite map_map. apply map_ext_in.
+  intros i Hi. now rewrite H.
+Qed.
+Lemma wsc_Q_nat alts B B' border h : (forall i, In i border -> B' i = B (h i)) -> wsc_Q alts B' border = wsc_Q alts B (map h border).
+Proof.
+  intros H. unfold wsc_Q. apply forallb_ext'. intros a. apply forallb_ext'. intros b. f_equal. rewrite map_map.
+  apply map_ext_in. intros i Hi. now rewrite H.
+Qed.
+
+Theorem vi_decide_reorder alts ballots ballots' :
+  Permutation ballots ballots' -> vi_decide alts ballots = vi_decide alts ballots'.
+Proof.
+  intros H. apply bool_eq_iff'. split.
+  - apply (voter_side_transport ballots' ballots (Permutation_sym H) (vi_Q alts) (vi_Q_nat alts)).
+  - apply (voter_side_transport ballots ballots' H (vi_Q alts) (vi_Q_nat alts)).
+Qed.
+
+Theorem vei_decide_reorder alts ballots ballots' :
+  Permutation ballots ballots' -> vei_decide alts ballots = vei_decide alts ballots'.
+Proof.
+  intros H. apply bool_eq_iff'. split.
+  - apply (voter_side_transport ballots' ballots (Permutation_sym H) (vei_Q alts) (vei_Q_nat alts)).
+  - apply (voter_side_transport ballots ballots' H (vei_Q alts) (vei_Q_nat alts)).
+Qed.
+
+Theorem wsc_decide_reorder alts ballots ballots' :
+  Permutation ballots ballots' -> wsc_decide alts ballots = wsc_decide alts ballots'.
+Proof.
+  intros H. apply bool_eq_iff'. split.
+  - apply (voter_side_transport ballots' ballots (Permutation_sym H) (wsc_Q alts) (wsc_Q_nat alts)).
+  - apply (voter_side_transport ballots ballots' H (wsc_Q alts) (wsc_Q_nat alts)).
+Qed.
+
+(* DE: through DE <-> CI (ballots over the alternatives) *)
+Theorem de_decide_eq_ci alts ballots : Forall (fun b => incl b alts) ballots -> de_decide alts ballots = ci_decide alts ballots.
+Proof.
+  intros Hwf. apply bool_eq_iff'.
+  rewrite (Proofs.Approval.de_decide_correct alts ballots Hwf), Proofs.Approval.ci_decide_correct.
+  now apply Proofs.Approval.de_iff_ci.
+Qed.
+
+Theorem de_decide_reorder alts ballots ballots' : Forall (fun b => incl b alts) ballots ->
+  Permutation ballots ballots' -> de_decide alts ballots = de_decide alts ballots'.
+Proof.
+  intros Hwf H. rewrite !de_decide_eq_ci; [now apply ci_decide_reorder| |exact Hwf].
+  rewrite Forall_forall in *. intros b Hb. apply Hwf. eapply Permutation_in; [apply Permutation_sym; exact H|exact Hb].
+Qed.
+
+(* 2PART: the specification only speaks of membership in the ballot list *)
+Theorem part2_decide_reorder alts ballots ballots' :
+  Permutation ballots ballots' -> part2_decide alts ballots = part2_decide alts ballots'.
+Proof.
+  assert (D : forall b b', Permutation b b' -> Proofs.Approval.TwoPart alts b -> Proofs.Approval.TwoPart alts b').
+  { intros b b' H [Hp Ht]. assert (Hin : forall x, In x b' -> In x b).
+    { intros x Hx. eapply Permutation_in; [apply Permutation_sym; exact H|exact Hx]. }
+    split.
+    - intros b1 b2 H1 H2. apply Hp; now apply Hin.
+    - destruct Ht as [->|(s & t & Hs & Ht & Hall & Hc)]; [left; now apply Permutation_nil|right].
+      exists s, t. repeat split; try (eapply Permutation_in; eassumption); [|exact Hc].
+      intros x Hx. apply Hall. now apply Hin. }
+  intros H. apply bool_eq_iff'. rewrite !Proofs.Approval.part2_decide_correct. split; apply D; [exact H|now apply Permutation_sym].
+Qed.
 End Reorder.
